@@ -9,6 +9,7 @@ package verifsim
 // points over all byte strings is a different technique and is not done here.
 
 import (
+	"bytes"
 	"encoding/base64"
 	"encoding/json"
 	"fmt"
@@ -31,7 +32,7 @@ var c20Types = []string{"ollama", "lm-studio", "vllm", "sglang", "llamacpp", "le
 // mutate applies one byte-level mutation to a well-formed payload.
 func c20Mutate(r R, base []byte) ([]byte, string) {
 	b := append([]byte(nil), base...)
-	switch k := r.Pick(18); k {
+	switch k := r.Pick(19); k {
 	case 0:
 		if len(b) > 1 {
 			return b[:r.Pick(len(b))], "truncate"
@@ -89,6 +90,10 @@ func c20Mutate(r R, base []byte) ([]byte, string) {
 		}
 		sb.WriteString(`],"data":[{"id":"z"}]}`)
 		return []byte(sb.String()), "many-duplicates"
+	case 17:
+		// one line far beyond any line buffer (no newline inside): a line-oriented reader has to give up on it
+		i := r.Pick(len(b) + 1)
+		return append(append(append([]byte(nil), b[:i]...), bytes.Repeat([]byte("L"), (1<<20)+4096+r.Pick(1<<20))...), b[i:]...), "oversized-line"
 	case 15, 16:
 		// well-formed JSON of the right shape whose *field values* are hostile: empty, one
 		// character, no separator, very long, non-sha digests, negative and huge numbers
@@ -196,6 +201,12 @@ func (propC20) Gen(seed uint64, tier string, idx int) *Plan {
 			kinds = append(kinds, "oversized")
 			continue
 		}
+		if r.Chance(60) {
+			// the framing lies: Content-Length of exabytes (or a few bytes more than the body) over a normal listing
+			b1.Listing = append(b1.Listing, Phase{From: from, Mode: "cllie", Arg: pickS(r, []int64{1 << 62, 1<<63 - 1, 1 << 40, int64(len(clean)) + 7})})
+			kinds = append(kinds, "content-length-lie")
+			continue
+		}
 		if r.Chance(80) {
 			mode := pickS(r, []string{"s500", "s404", "garbage", "fin", "rst", "stall", "empty"})
 			b1.Listing = append(b1.Listing, Phase{From: from, Mode: mode})
@@ -275,6 +286,10 @@ func (propC20) Gen(seed uint64, tier string, idx int) *Plan {
 		}
 		b1.ByNonce[NonceOf(id)] = []Resp{resp}
 		op.Expect = "poison:" + kind
+		if kind == "oversized-line" {
+			// megabytes in 100-byte segments through a 16-byte stream buffer only burn kernel steps
+			p.Net.MaxSegment, p.Stack.StreamBuf = 65536, 8192
+		}
 		p.Ops = append(p.Ops, op)
 		id++
 		// probe on the healthy backend right after
